@@ -1343,12 +1343,10 @@ class Collocator:
             # np.allclose would broadcast a single point against all points
             return False
 
-        try:
-            return np.allclose(lat, self.index.lat) \
-                   & np.allclose(lon, self.index.lon)
-        except ValueError:
-            # The shapes are different
-            return False
+        # The points must be identical: with a tolerance (np.allclose) points
+        # that moved by up to ~100 m would be searched in the old index.
+        return np.array_equal(lat, self.index.lat) \
+            and np.array_equal(lon, self.index.lon)
 
     def _choose_points_to_build_index(self, primary, secondary):
         """Choose which points should be used for tree building
